@@ -48,13 +48,13 @@ CHECKS = {
    COMMON_NOTE + "Known finding read_group_auto_from_other_experiment. See docs/C10.md.", "§7 C10, docs/C10.md"),
  "C12": entry(
    "Partial by nature: theorems carry the BAM-partition clause (k-way merge is a permutation sorted by start, region clusters and per-region record multisets are invariant under any partition of the records into files) and the cache clause (a lookup succeeds only for the same path with matching mtimes and flag, for all histories); the format-equivalence clause (.gtf/.gtf.gz/.db, --complete_genedb) is exercised by differential pipeline runs only (search).",
-   COMMON_NOTE + "Downstream dependence on the record multiset only is a hypothesis carried by C08/C02 and watched by the pipeline oracle. See docs/C12.md.", "§7 C12, docs/C12.md"),
+   COMMON_NOTE + "End-to-end theorem over the composed C12+C08+C02 models: any two file partitions give the same loaded record multisets and count/TPM tables under AssignDupFree (known finding eq_duplicate_file_order otherwise). Format equivalence is search only. See docs/C12.md.", "§7 C12, docs/C12.md"),
  "C13": entry(
    "Theorems: include/exclude counts are folds counting reads whose profile is +1/-1 at the feature, for all histories and groups (grouped partition, one row per annotated feature); soundness of +1 (a read feature matches within delta) for all inputs and of -1, and the iff characterisations under the explicit decidable hypothesis on feature lengths/gaps with witnesses for the excluded corner. Tied to the real counters/profiles by correspondence and to pipeline tables by a recount from BAM + GTF.",
    COMMON_NOTE + "Known finding tie_loser_exon. See docs/C13.md.", "§7 C13, docs/C13.md"),
  "C14": entry(
    "Theorems for ALL event lists (the junction comparator is quantified over): a BED12 record is valid iff the exon list is sorted, disjoint, well formed and inside the chromosome; the corrector's output is always such a list; strategy none is the identity; read ends change only in the terminal branches enabled by the strategy; every output splice site is the read's own, the best-matching annotated site within delta, or belongs to an intron of the assigned isoform; process_events terminates. Tied to the real ExonCorrector/BEDPrinter by correspondence and to pipeline BEDs for all strategies.",
-   COMMON_NOTE + "IlluminaExonCorrector is search only. See docs/C14.md.", "§7 C14, docs/C14.md"),
+   COMMON_NOTE + "IlluminaExonCorrector.correct_exons is modelled too (scoring rules regenerated): valid blocks, ends preserved, site provenance, identity without junctions, for all junction sets and enumeration orders. See docs/C14.md.", "§7 C14, docs/C14.md"),
  "C15": entry(
    "Theorems for every value in the representable domain (exact encodable-iff characterisations): every primitive and object (events, matches, read assignments, compact records, gene header) round-trips through the byte format, the abridged reader consumes exactly the same bytes as the full reader and returns the projection, streams of gene-info and assignment records round-trip, terminators are unambiguous, penalties are idempotent. Tied byte-for-byte to the real serialisers and both real loaders; the reuse clause (--read_assignments) is exercised by a pipeline pair (search).",
    COMMON_NOTE + "See docs/C15.md.", "§7 C15, docs/C15.md"),
@@ -65,11 +65,11 @@ CHECKS = {
    "Theorems over an interleaving model of the per-user JSON cache protocol, for any number of processes and every merge of their step lists: with the (repaired) atomic store / tolerant load no load ever sees a partial file, nobody crashes and every run finishes, and a successful lookup returns only an artefact stored for the same key with matching mtimes and flags; the pre-fix protocol's two failure modes are kept as decide-checked witnesses. Tied to the real load/store functions by a step-token scheduler and to real concurrent isoquant.py processes.",
    COMMON_NOTE + "json and os.replace atomicity are assumed externals (laws checked at run time). See docs/C20.md.", "§7 C20, docs/C20.md"),
  "C01": entry(
-   "Partial by design: theorems over a model of the assigner (profiles, match_consistent, nucleotide-score resolution, read-end and polyA verification, classify_assignment over regenerated event tables, the whole inconsistent path, assign_to_isoform) with the junction comparator's event lists as a quantified input: classification is sound for all event sets and the tables partition; every isoform reported by the consistent path is structurally compatible with the read (declarative Compatible), uniqueness when only one isoform is compatible, full-length isoform kept under the score condition, exact introns marked; a far read goes down the inconsistent path and is consistent only if the comparator emits no major event. The remaining clauses (comparator always emits a major event for far reads; geometric-to-profile forward direction) are carried by the oracle on in-process reads and pipeline runs for the four matching presets.",
-   COMMON_NOTE + "compare_junctions is not modelled (its output is an input of the theorems; the correspondence feeds the real events). Known finding terminal_exon_misalignment_far. See docs/C01.md.", "§7 C01, docs/C01.md"),
+   "Theorems over a model of the assigner (profiles, match_consistent, nucleotide-score resolution, read-end and polyA verification, classify_assignment over regenerated event tables, the whole inconsistent path, assign_to_isoform) and of JunctionComparator.compare_junctions (never raises, events well formed, presence marks = within-delta partner, no contradiction iff all spanned introns have partners; far_never_consistent: a read intron without partner outside the explicit tolerance classes always yields a major event, hence never a consistent type), plus, with the comparator quantified: classification is sound for all event sets and the tables partition; every isoform reported by the consistent path is structurally compatible with the read (declarative Compatible), uniqueness when only one isoform is compatible, full-length isoform kept under the score condition, exact introns marked; a far read goes down the inconsistent path and is consistent only if the comparator emits no major event. The remaining clauses (comparator always emits a major event for far reads; geometric-to-profile forward direction) are carried by the oracle on in-process reads and pipeline runs for the four matching presets.",
+   COMMON_NOTE + "Partial: the forward geometric-to-profile direction and far reads by retained intron / long end extension / deep polyA are carried by the oracle. Known finding terminal_exon_misalignment_far (tolerance class (e)). See docs/C01.md.", "§7 C01, docs/C01.md"),
  "C04": entry(
    "Theorems over a model of intron collection, the intron graph as abstract operations, path storage and the decision block of construct_fl_isoforms: for every operation history every graph vertex and every image of the correction map is an intron of some non-multimapper read's corrected alignment, hence every intron of every emitted novel model is observed (end to end from reads); .nic iff all introns annotated; the chain differs from every reference chain; surviving models keep >= 1 supporting read and transcript_model_reads refers only to stored models (min_novel_count >= 1 by decide over the regenerated presets); definite strand for the quantified reporting levels; annotation-free runs yield only novel genes; distinctness among novel models is proved under the no-shared-inner-chain hypothesis with a witness otherwise. Tied to the real IntronCollector/IntronGraph/constructor by correspondence and to pipeline GTFs by an output validator.",
-   COMMON_NOTE + "Known finding monointron_apa_duplicates. IntronGraph.simplify internals, polyA clustering and the gene joiner are watched by the pipeline oracle only. See docs/C04.md.", "§7 C04, docs/C04.md"),
+   COMMON_NOTE + "Also modelled: edge relation, threading, terminal attachment, path enumeration (every novel model has a strictly increasing chain of observed introns: discharges C03's path assumption) and the gene joiner strand clause. Known finding monointron_apa_duplicates. IntronGraph.simplify internals are replayed from recorded traces. See docs/C04.md.", "§7 C04, docs/C04.md"),
  "C11": entry(
    "102 theorems for all inputs and all shifts k / mirror lengths L: every generated primitive and every function of the interval, profile and polyA-shift models is translation equivariant; primitives, sums, coverage/Jaccard sweeps, junction/exon conversion, preceding/following exon, both binary searches (index i <-> n-1-i) and the polyA/polyT count and shift pairs are mirror dual, with the exact condition (and witnesses) where the code is not; left/right event tables are closed under the swap (decide over regenerated tables). The relations are also evaluated on the real functions and the real assigner; whole-pipeline shift and reflection runs are search only.",
    COMMON_NOTE + "Three known findings (polyA finder offset, flanking-intron side naming, left-site-only intron shift). Reflection of split_exons/merge/truncate/profiles and the pipeline clauses are evaluated, not proved. See docs/C11.md.", "§7 C11, docs/C11.md"),
